@@ -135,6 +135,26 @@ def rule_closure(ctx, eff):
             want = mk_fn(op, [mk_fn("abs", [S("self.signal") + S("self.noise")]), mk_fn("abs", [S("other")])])
             ctx.check("C15.6", isinstance(d, Form) and d == want, m, rets[0].node, f"electrical_signal.{meth}: data = {d!r}", f"|signal+noise| {'>' if op == 'gt' else '<'} |threshold|",
                       f"comparison is not {want!r}")
+    # the comparison yields one bit per sample: a threshold array must have the signal's length (or one element); decided on
+    # length classes - lengths are only compared with each other and with 1
+    from ..rules import _concrete_run
+    for meth in ("__gt__", "__lt__"):
+        m = pkg.find_method("typing", "electrical_signal", meth)
+        la = mk_fn("siglen", [S("self.signal")])
+        probs, where = [], m.node
+        for kind, pc, ass, lbs in (("electrical_signal", {"other": "electrical_signal"}, {"self.noise": "none", "other.noise": "none"}, [mk_fn("siglen", [S("other.signal")])]),):
+            for na, nb in ((5, 3), (1, 5), (5, 5), (5, 1)):
+                rej, e, out, _i = _concrete_run(pkg, m, {}, ass, pc, [(la, na)] + [(x, nb) for x in lbs], self_class="electrical_signal")
+                must = na != nb and nb != 1
+                if must and not rej:
+                    probs.append(f"a signal of {na} sample(s) compared with a threshold of {nb} is accepted: the result does not have the signal's length")
+                elif must and e != "ValueError":
+                    probs.append(f"lengths {na} vs {nb} raise {e}, documented ValueError")
+                elif not must and rej:
+                    probs.append(f"compatible lengths {na} vs {nb} are rejected ({e})")
+                if out is not None and (rej or must):
+                    where = out.node
+        ctx.check("C15.6", not probs, m, where, f"electrical_signal.{meth}: threshold length", "equal lengths or a one-element threshold; anything else -> ValueError (4 length classes)", "; ".join(probs[:2]))
     for q in ("devices.PRBS", "ppm.PPM_ENCODER", "ppm.PPM_DECODER", "ppm.HDD", "ppm.SDD"):
         f = pkg.func(q)
         rets = [n for n in body_nodes(f) if isinstance(n, ast.Return) and n.value is not None]
@@ -227,4 +247,4 @@ def run(ctx):
     ctx.require_min("C15.3", 5)
     ctx.require_min("C15.4", 14)
     ctx.require_min("C15.5", 3)
-    ctx.require_min("C15.6", 2)
+    ctx.require_min("C15.6", 4)
